@@ -196,3 +196,72 @@ where
         acc.violation(&key, desc, replay.clone());
     }
 }
+
+// ------------------------------------------------------------------------- runner scenarios
+
+use crate::judge::{judge_conn, Failure, JudgeOpts};
+use crate::runner::{scenario_body, scenario_from_json, scenario_json, Obs, Scenario};
+
+/// Explores a runner scenario (real server, scripted client) for all schedules within the
+/// bound, judging every execution against the reference model.
+pub fn explore_runner_scenario(
+    cfg: &L2Cfg,
+    acc: &mut Acc,
+    sc: &Scenario,
+    class: &str,
+    extra: &(dyn Fn(&Scenario, &Obs, &RunResult) -> Vec<Failure> + Sync),
+) -> bool {
+    let s2 = sc.clone();
+    let s3 = sc.clone();
+    let class = class.to_string();
+    explore_scenario::<Obs, _, _>(
+        cfg,
+        acc,
+        &scenario_json(sc),
+        move |o| scenario_body(s2.clone(), o),
+        |o, r| {
+            let (mut f, _) = judge_conn(&s3, o, r, &JudgeOpts::default());
+            f.extend(extra(&s3, o, r));
+            f.into_iter()
+                .map(|fl| {
+                    let key = match fl.clause {
+                        "machinery" => "machinery".to_string(),
+                        "panic" | "hang" => format!("{}:{}", fl.clause, class),
+                        _ => class.clone(),
+                    };
+                    (key, format!("[{}] {}", fl.clause, fl.desc))
+                })
+                .collect()
+        },
+    )
+}
+
+pub fn replay_runner_scenario(
+    acc: &mut Acc,
+    replay: &Value,
+    class: &str,
+    extra: &(dyn Fn(&Scenario, &Obs, &RunResult) -> Vec<Failure> + Sync),
+) {
+    let sc = scenario_from_json(&replay["scenario"]);
+    let s2 = sc.clone();
+    let class = class.to_string();
+    replay_schedule::<Obs, _, _>(
+        acc,
+        replay,
+        move |o| scenario_body(s2.clone(), o),
+        |o, r| {
+            let (mut f, _) = judge_conn(&sc, o, r, &JudgeOpts::default());
+            f.extend(extra(&sc, o, r));
+            f.into_iter()
+                .map(|fl| {
+                    let key = match fl.clause {
+                        "machinery" => "machinery".to_string(),
+                        "panic" | "hang" => format!("{}:{}", fl.clause, class),
+                        _ => class.clone(),
+                    };
+                    (key, format!("[{}] {}", fl.clause, fl.desc))
+                })
+                .collect()
+        },
+    );
+}
